@@ -13,25 +13,12 @@
 From LV Require Import Base.Bytes Base.Sx Model.Obj Model.Writer Model.Save Gen.Lex Gen.SaveFmt
   Proofs.LexProofs Proofs.RealProofs Proofs.ObjectRtProofs Proofs.SaveProofs Spec.SaveSpec
   Proofs.FilterProofsDict Proofs.LoadProofs Proofs.LoadProofsXref Proofs.LoadProofsTable
-  Proofs.StrictReaderProofs Proofs.SaveStrictProofs.
+  Proofs.StrictReaderProofs Proofs.SaveStrictProofs Proofs.StrictObjectProofs.
 From LV Require Spec.StrictReader.
 From Coq Require Import ZifyBool ZifyN ZifyNat.
 
 Local Open Scope N_scope.
 
-(* DEVSTUB-BEGIN *)
-Definition sfollow (o : obj) (rest : bytes) : Prop :=
-  match o with
-  | ONull | OBool _ | OName _ | ORef _ _ => SR.tok_end rest = true
-  | OInt _ | OReal _ => SR.tok_end rest = true /\ SR.p_ref_tail rest = None
-  | _ => True
-  end.
-Section Dev.
-Hypothesis strict_p_object_rt : forall o rest,
-  obj_wf o -> sfollow o rest -> SR.p_object (write_object o ++ rest) = Some (norm_obj o, rest).
-Hypothesis skip_ws_sep_object : forall o rest, obj_wf o ->
-  SR.skip_ws (sp_if (need_separator o) ++ write_object o ++ rest) false = write_object o ++ rest.
-(* DEVSTUB-END *)
 
 (* ---------- small facts about the strict lexer ---------- *)
 (* [solid s]: s is empty or begins with a byte that is neither white space nor "%" *)
@@ -215,11 +202,11 @@ Proof.
   replace (65535 <? g) with false by (symmetry; apply N.ltb_ge; exact Hg).
   pose proof (wio_nonempty id g o) as Hne.
   assert (Hlen : SR.lenN file = blen pre + blen (write_indirect_object id g o) + blen post).
-  { subst file. rewrite !lenN_app, !lenN_blen. lia. }
+  { subst file. unfold SR.lenN, blen. rewrite !app_length. lia. }
   replace (SR.lenN file <=? blen pre) with false by (symmetry; apply N.leb_gt; lia).
   rewrite Hf at 1. rewrite at_off_app, wio_objhdr. rewrite !N.eqb_refl. cbn [andb].
   rewrite (objbody_rt _ id o post Hw). cbn [SR.sbind fst snd].
-  rewrite (skip_sp_solid post Hp). f_equal. f_equal. rewrite Hlen, lenN_blen. lia.
+  rewrite (skip_sp_solid post Hp). f_equal. f_equal. rewrite Hlen. unfold SR.lenN, blen. lia.
 Qed.
 
 (* ---------- all written objects through their entries ---------- *)
@@ -259,7 +246,7 @@ Proof.
   - rewrite objs_bytes_cons in * by exact Hsk. rewrite <- app_assoc in *.
     pose proof (wio_nonempty id g o) as Hne.
     assert (Hpos : blen pre mod u32_mod = blen pre).
-    { apply N.mod_small. rewrite !lenN_app, !lenN_blen in Hs. lia. }
+    { apply N.mod_small. unfold SR.lenN, blen in *. rewrite !app_length in Hs. lia. }
     cbn [map xuse_of fst snd xent_of SR.read_entries]. rewrite Hpos.
     rewrite (read_at_written _ revs pre id g o (objs_bytes rest ++ tail) eq_refl Hg Hw (objs_bytes_solid rest tail Ht)).
     cbn [SR.sbind].
@@ -270,6 +257,182 @@ Proof.
     + rewrite <- app_assoc. reflexivity.
 Qed.
 
-(* DEVSTUB-BEGIN *)
-End Dev.
-(* DEVSTUB-END *)
+
+(* ---------- cross-reference table ---------- *)
+Definition sec_good (s : xsection) : Prop := snd s <> [] /\ Forall xentry_in_range (snd s).
+
+Lemma number_from_enum : forall es id, number_from id es = map xuse_of (enum id es).
+Proof. induction es as [|e es IH]; intro id; cbn [number_from enum map]; [reflexivity|]. rewrite IH. reflexivity. Qed.
+
+Lemma entries_length es : Forall xentry_in_range es -> length (flat_map write_xref_entry es) = (20 * length es)%nat.
+Proof.
+  induction 1 as [|e es He Hes IH]; [reflexivity|]. cbn [flat_map length]. rewrite app_length, IH, (xref_entry_20 e He). lia.
+Qed.
+
+Lemma strip_trailer_digit c t : is_dec_digit c = true -> SR.strip SR.KW_trailer (c :: t) = None.
+Proof. intro H. destruct c; try discriminate H; reflexivity. Qed.
+
+Lemma section_shape st es :
+  es <> [] -> write_xref_section (st, es) = N_dec st ++ x20 :: N_dec (N.of_nat (length es)) ++ x0a :: flat_map write_xref_entry es.
+Proof. intro H. unfold write_xref_section. cbn [fst snd]. destruct es; [contradiction | reflexivity]. Qed.
+
+Lemma subsections_written : forall secs fuel pos0 rest,
+  Forall sec_good secs -> (length secs < fuel)%nat ->
+  SR.p_subsections fuel pos0 (flat_map write_xref_section secs ++ bs "trailer" ++ rest) =
+  SR.SOk (map xuse_of (flatten secs), bs "trailer" ++ rest).
+Proof.
+  induction secs as [|[st es] secs IH]; intros fuel pos0 rest Hg Hf; (destruct fuel as [|f]; [lia|]).
+  - cbn [flat_map app SR.p_subsections]. change SR.KW_trailer with (bs "trailer"). rewrite strip_app. reflexivity.
+  - inversion Hg as [|? ? [Hne Hr] Hg']; subst. cbn [fst snd] in *.
+    cbn [flat_map]. rewrite (section_shape st es Hne). repeat (rewrite <- app_assoc; cbn [app]).
+    cbn [SR.p_subsections].
+    assert (Hst : forall X, SR.strip SR.KW_trailer (N_dec st ++ X) = None).
+    { intro X. destruct (N_dec_cons st) as [c [t [E Hc]]]. rewrite E. cbn [app]. apply strip_trailer_digit. exact Hc. }
+    rewrite Hst.
+    rewrite p_nat_N_dec by reflexivity. cbn [SR.obnd snd fst]. rewrite byte_eqb_refl.
+    rewrite p_nat_N_dec by reflexivity. cbn [SR.obnd snd fst SR.p_eol].
+    change (byte_eqb x0a x0d) with false. change (byte_eqb x0a x0a) with true. cbv iota.
+    cbn [SR.obnd SR.of_opt SR.sbind].
+    assert (Hl : SR.lenN (flat_map write_xref_entry es ++ flat_map write_xref_section secs ++ bs "trailer" ++ rest)
+                 <? N.of_nat (length es) * 20 = false).
+    { apply N.ltb_ge. unfold SR.lenN. rewrite app_length, (entries_length es Hr). lia. }
+    rewrite Hl. rewrite Nat2N.id. rewrite (save_entries_accepted es st _ Hr).
+    cbn [SR.of_opt SR.sbind snd fst]. rewrite (IH f pos0 rest Hg' ltac:(cbn [length] in Hf; lia)).
+    cbn [SR.sbind fst snd]. unfold flatten. cbn [flat_map fst snd]. rewrite map_app, number_from_enum. reflexivity.
+Qed.
+
+Lemma sections_bytes_long : forall secs, Forall sec_good secs -> (length secs <= length (flat_map write_xref_section secs))%nat.
+Proof.
+  induction 1 as [|[st es] secs [Hne _] Hs IH]; [cbn; lia|]. cbn [fst snd] in *.
+  cbn [flat_map length]. rewrite app_length, (section_shape st es Hne), app_length.
+  pose proof (N_dec_nonempty st). destruct (N_dec st); [contradiction|]. cbn [length]. lia.
+Qed.
+
+Theorem xref_table_written x secs t rest :
+  Forall sec_good secs -> obj_wf (ODict t) ->
+  SR.p_xref_table x (bs "xref" ++ x0a :: flat_map write_xref_section secs ++ trailer_bytes t ++ rest) =
+  SR.SOk (map xuse_of (flatten secs), norm_dict t, rest).
+Proof.
+  intros Hg Hw. unfold SR.p_xref_table. change SR.KW_xref with (bs "xref"). rewrite strip_app.
+  cbn [SR.obnd SR.p_eol]. change (byte_eqb x0a x0d) with false. change (byte_eqb x0a x0a) with true. cbv iota.
+  cbn [SR.of_opt SR.sbind]. unfold trailer_bytes. rewrite <- !app_assoc.
+  rewrite subsections_written; [|exact Hg|].
+  2:{ pose proof (sections_bytes_long secs Hg). rewrite app_length. lia. }
+  cbn [SR.sbind fst snd]. change SR.KW_trailer with (bs "trailer"). unfold SR.kw_tok. rewrite strip_app.
+  cbn [app SR.tok_end]. change (SR.is_regular x0a) with false. cbn [negb SR.of_opt SR.sbind].
+  assert (Hs : SR.skip_ws (x0a :: write_dictionary t ++ rest) false = write_dictionary t ++ rest) by reflexivity.
+  rewrite Hs. unfold write_dictionary. rewrite (strict_p_object_rt (ODict t) rest Hw I).
+  cbn [norm_obj SR.of_opt SR.sbind fst snd]. reflexivity.
+Qed.
+
+(* ---------- cross-reference stream content ---------- *)
+Definition bstep (v : N) (c : byte) : N := v * 256 + SR.nb c.
+
+Lemma be_val_app : forall a s acc, SR.be_val (length a) (a ++ s) acc = Some (fold_left bstep a acc, s).
+Proof. induction a as [|c a IH]; intros s acc; cbn [length app SR.be_val fold_left]; [reflexivity|]. apply IH. Qed.
+
+Lemma be_bytes_length : forall w n, length (be_bytes w n) = w.
+Proof. induction w as [|w IH]; intro n; cbn [be_bytes]; [reflexivity|]. rewrite app_length, IH. cbn [length]. lia. Qed.
+
+Lemma be_bytes_fold : forall w n acc, fold_left bstep (be_bytes w n) acc = acc * 256 ^ N.of_nat w + n mod 256 ^ N.of_nat w.
+Proof.
+  induction w as [|w IH]; intros n acc; cbn [be_bytes fold_left].
+  - change (256 ^ N.of_nat 0) with 1. rewrite N.mod_1_r. lia.
+  - rewrite fold_left_app, IH. cbn [fold_left]. unfold bstep at 1. unfold SR.nb.
+    assert (Hb' : N_of_byte (byte_of_N n) = n mod 256).
+    { pose proof (N.mod_lt n 256 ltac:(lia)) as Hlt.
+      pose proof (N_of_byte_of_N (n mod 256) Hlt) as K. unfold byte_of_N in *. rewrite N.mod_mod in K by lia. exact K. }
+    rewrite Hb'. replace (N.of_nat (S w)) with (N.succ (N.of_nat w)) by lia. rewrite N.pow_succ_r'.
+    rewrite (N.mod_mul_r n 256 (256 ^ N.of_nat w)) by (try lia; apply N.pow_nonzero; lia). lia.
+Qed.
+
+Lemma be_val_be_bytes w n s : n < 256 ^ N.of_nat w -> SR.be_val w (be_bytes w n ++ s) 0 = Some (n, s).
+Proof.
+  intro H. rewrite <- (be_bytes_length w n) at 1. rewrite be_val_app, be_bytes_fold. rewrite N.mod_small by exact H.
+  reflexivity.
+Qed.
+
+Definition sec_normal (s : xsection) : Prop :=
+  Forall (fun e => match e with XNormal off g => off < u32_mod /\ g < 65536 | _ => False end) (snd s).
+
+Lemma xs_entry_written id off g s :
+  off < u32_mod -> g < 65536 ->
+  SR.p_xs_entry XS_W1 XS_W2 XS_W3 (xstream_entry id (XNormal off g) ++ s) = Some (Some (SR.XUse off g), s).
+Proof.
+  intros Ho Hg. unfold SR.p_xs_entry, xstream_entry. cbn [app]. rewrite <- app_assoc.
+  change (SR.be_val XS_W1 (x01 :: ?t) 0) with (Some (1, t)). cbn [SR.obnd snd fst].
+  rewrite be_val_be_bytes by (unfold XS_W2, u32_mod in *; change (256 ^ N.of_nat 4) with 4294967296; exact Ho).
+  cbn [SR.obnd snd fst].
+  rewrite be_val_be_bytes by (unfold XS_W3; change (256 ^ N.of_nat 2) with 65536; exact Hg).
+  cbn [SR.obnd snd fst]. reflexivity.
+Qed.
+
+Lemma xs_entries_written : forall es id s,
+  sec_normal (id, es) ->
+  SR.p_xs_entries XS_W1 XS_W2 XS_W3 (length es) id (xstream_entries id es ++ s) = SR.SOk (map xuse_of (enum id es), s).
+Proof.
+  induction es as [|e es IH]; intros id s H; [reflexivity|]. unfold sec_normal in H. cbn [snd] in H.
+  inversion H as [|? ? He Hes]; subst. destruct e as [| |off g|]; try contradiction. destruct He as [Ho Hg].
+  cbn [length xstream_entries SR.p_xs_entries]. rewrite <- app_assoc. rewrite (xs_entry_written id off g _ Ho Hg).
+  rewrite (IH (id + 1) s Hes). cbn [SR.sbind fst snd enum map]. reflexivity.
+Qed.
+
+Definition index_pairs (secs : list xsection) : list (N * N) := map (fun s => (fst s, N.of_nat (length (snd s)))) secs.
+
+Lemma xs_sections_written : forall secs,
+  Forall sec_normal secs ->
+  SR.p_xs_sections XS_W1 XS_W2 XS_W3 (index_pairs secs) (xstream_content secs) = SR.SOk (map xuse_of (flatten secs)).
+Proof.
+  induction secs as [|[st es] secs IH]; intro H; [reflexivity|]. inversion H; subst.
+  unfold index_pairs, xstream_content, flatten in *. cbn [map flat_map fst snd SR.p_xs_sections].
+  rewrite Nat2N.id. rewrite (xs_entries_written es st _ H2). cbn [SR.sbind fst snd].
+  rewrite (IH H3). cbn [SR.sbind]. rewrite map_app. reflexivity.
+Qed.
+
+Lemma index_parsed : forall secs,
+  SR.obnd (SR.all_nats (flat_map (fun s : xsection => [OInt (Z.of_N (fst s)); OInt (Z.of_nat (length (snd s)))]) secs)) SR.pairs_of
+  = Some (index_pairs secs).
+Proof.
+  induction secs as [|[st es] secs IH]; [reflexivity|]. cbn [flat_map fst snd app SR.all_nats SR.as_nat_obj].
+  replace (Z.of_N st <? 0)%Z with false by (symmetry; apply Z.ltb_ge; lia).
+  replace (Z.of_nat (length es) <? 0)%Z with false by (symmetry; apply Z.ltb_ge; lia).
+  unfold index_pairs in *. cbn [map fst snd].
+  destruct (SR.all_nats (flat_map (fun s : xsection => [OInt (Z.of_N (fst s)); OInt (Z.of_nat (length (snd s)))]) secs)) as [l|];
+    cbn [SR.obnd] in *; [|discriminate IH].
+  cbn [SR.pairs_of]. rewrite IH. rewrite N2Z.id. f_equal. f_equal. f_equal. lia.
+Qed.
+
+Lemma xstream_entries_length : forall es id, length (xstream_entries id es) = (7 * length es)%nat.
+Proof.
+  induction es as [|e es IH]; intro id; [reflexivity|]. cbn [xstream_entries length]. rewrite app_length, IH.
+  destruct e; cbn [xstream_entry length]; rewrite app_length, !be_bytes_length; unfold XS_W2, XS_W3; lia.
+Qed.
+
+Lemma xstream_content_length : forall secs, SR.lenN (xstream_content secs) = SR.sum_counts (index_pairs secs) * 7.
+Proof.
+  induction secs as [|[st es] secs IH]; [reflexivity|]. unfold xstream_content, index_pairs, SR.lenN in *.
+  cbn [flat_map map fst snd]. rewrite app_length, xstream_entries_length.
+  match goal with |- _ = SR.sum_counts (?a :: ?l) * 7 =>
+    change (SR.sum_counts (a :: l)) with (snd a + SR.sum_counts l) end.
+  cbn [snd]. lia.
+Qed.
+
+Theorem decode_xstream_written x dct secs size :
+  dict_get dct SR.N_Type = Some (OName SR.N_XRef) -> dict_get dct SR.N_Filter = None ->
+  dict_get dct SR.N_Size = Some (OInt (Z.of_N size)) -> dict_get dct SR.N_W = Some xs_W ->
+  dict_get dct SR.N_Index = Some (xstream_index secs) ->
+  Forall sec_normal secs ->
+  SR.decode_xstream x dct (xstream_content secs) = SR.SOk (map xuse_of (flatten secs)).
+Proof.
+  intros HT HF HS HW HI Hn. unfold SR.decode_xstream. rewrite HT, bytes_eqb_refl, HF. cbn [negb].
+  rewrite HS. cbn [SR.obnd SR.as_nat_obj]. replace (Z.of_N size <? 0)%Z with false by (symmetry; apply Z.ltb_ge; lia).
+  cbn [SR.of_opt SR.sbind]. rewrite HW.
+  match goal with |- context [SR.of_opt SR.R_xstream_W x ?e] =>
+    let v := eval vm_compute in e in change e with v end.
+  cbn [SR.of_opt SR.sbind].
+  rewrite HI. unfold xstream_index. rewrite index_parsed. cbn [SR.of_opt SR.sbind].
+  rewrite xstream_content_length. change (1 + 4 + 2) with 7. rewrite N.eqb_refl. cbn [negb].
+  change (N.to_nat 1) with XS_W1. change (N.to_nat 4) with XS_W2. change (N.to_nat 2) with XS_W3.
+  apply xs_sections_written. exact Hn.
+Qed.
+
